@@ -26,6 +26,7 @@ type ExploreConfig struct {
 	KeepFuncs    bool
 	StopOnViol   int // stop after this many violating paths (0 = never)
 	Params       map[string]int64
+	IntMode      bool
 	SampleModels int // keep an end-of-path model for this many paths
 	sampled      *int
 }
@@ -190,7 +191,7 @@ func (in *Interp) newPath(sess *smt.Session, maxSteps int) *Path {
 		pcNegNames: map[string]bool{},
 		occ:        map[string]int{},
 		calls:      map[*ssa.Function]int{},
-		stubs: map[string]Value{},
+		stubs:      map[string]Value{},
 		known:      map[string]*smt.Term{},
 		maxSteps:   maxSteps,
 		res:        &PathResult{Observed: map[string]string{}, choiceVals: map[string]int64{}},
@@ -202,6 +203,7 @@ func (in *Interp) runPath(sess *smt.Session, cfg ExploreConfig, prefix []int64) 
 	p := in.newPath(sess, cfg.MaxSteps)
 	p.prefix = prefix
 	p.params = cfg.Params
+	p.intMode = cfg.IntMode
 	if cfg.KeepFuncs {
 		p.res.Funcs = map[string]bool{}
 	}
